@@ -106,9 +106,9 @@ PROPS = {
                  'command produced (existence only for mutated outputs) and never for a non-successful stored result; FileInfo ==/!= and '
                  'getInfoForPath (shared with C13) decide "has this file changed"; computeCommandResult records one info per output in output order (the epoch for a command-timestamp node, the all-zero record for a virtual node, the current file info otherwise; at most 4 outputs named), '
                  'canUpdateIfNewerWithResult allows an update without running only with allow-modified-outputs and every recorded output existing; getResultForOutput gives output k the k-th recorded info (existing input with exactly that info / missing output / virtual input); '
-                 'FileInputNodeTask: a source file value is valid exactly when existence and file information are unchanged, and building it records the current information once; ProducedNodeTask hands its producing command exactly this node and the delivered value; the deps-file dispatch of the shell command (see C11)',
+                 'FileInputNodeTask: a source file value is valid exactly when existence and file information are unchanged, and building it records the current information once; ProducedNodeTask hands its producing command exactly this node and the delivered value; a command that left the description builds to an invalid value with the change forced; a target is re-evaluated in every build; CommandTask forwards exactly the delivered values and input ids to its command; the deps-file dispatch of the shell command (see C11)',
         'not_decided': ['on-disk equivalence with a clean build (everything the title says)', 'the per-key-kind rule dispatch in lookupRule (closures)',
-                        'TargetTask / StatTask / MissingCommandTask / ProducedDirectoryNodeTask, CommandTask'],
+                        'StatTask / ProducedDirectoryNodeTask, the start / inputsAvailable halves of TargetTask and CommandTask (closures)'],
     },
     'C10': {
         'units': ['extcmd', 'subprocess', 'extcmd_run', 'extcmd_result', 'nodetasks'],
@@ -193,15 +193,15 @@ PROPS = {
                         'spawnProcess, pipe draining, process groups, the kill-after-timeout thread', 'released (background) lanes'],
     },
     'C17': {
-        'units': ['ninja_lex', 'ninja_scope', 'shellesc', 'ninja_eval', 'ninja_parser', 'ninja_include'],
+        'units': ['ninja_lex', 'ninja_scope', 'shellesc', 'ninja_eval', 'ninja_parser', 'ninja_include', 'ninja_builddecl'],
         'design_ref': 'DESIGN.md section 4, C17',
         'claim': 'Ninja lexer: a keyword kind is produced exactly when the token bytes are the whole keyword, every byte value '
                  '0x00-0xFF is returned as itself (end of file only at the true end), identifier-specific mode never yields keywords; '
                  'lookupBuildParameterImpl: a build-level binding shadows everything whatever its value, else the rule-level template is evaluated in the '
                  'context of this build statement, else the enclosing scope is asked under the same name; $in/$in_newline are the explicit inputs '
                  'separated by space/newline, $out all outputs, shell-quoted exactly when evaluating "command"; BOUNDED (not counted): '
-                 'a shell-escaped path of up to 3 (quick) bytes, read by a model of POSIX sh word syntax, is exactly one word equal to the path; evalString in seven steps (literal run, piece, `$` at the end, `$`+newline, single-character escapes, ${name}, $name): every byte read lies inside the string, every step that does not stop the scan advances, a literal piece is a maximal `$`-free run, only `$ ` `$:` `$$` are character escapes, the name looked up is exactly the text between `${` and `}` (identifier characters) or the maximal run of simple identifier characters after `$`; include / subninja (actOnIncludeDecl): the path expression is evaluated in the current scope, `include` parses the file in the current scope, `subninja` in one new scope whose parent is the current scope',
-        'not_decided': ['agreement of variable evaluation with Ninja itself (needs Ninja as oracle)', 'the composition of the evalString steps over a whole string', 'that the parser accepts exactly the Ninja grammar (only termination, token consumption and lexer mode are decided)'],
+                 'a shell-escaped path of up to 3 (quick) bytes, read by a model of POSIX sh word syntax, is exactly one word equal to the path; evalString in seven steps (literal run, piece, `$` at the end, `$`+newline, single-character escapes, ${name}, $name): every byte read lies inside the string, every step that does not stop the scan advances, a literal piece is a maximal `$`-free run, only `$ ` `$:` `$$` are character escapes, the name looked up is exactly the text between `${` and `}` (identifier characters) or the maximal run of simple identifier characters after `$`; include / subninja (actOnIncludeDecl): the path expression is evaluated in the current scope, `include` parses the file in the current scope, `subninja` in one new scope whose parent is the current scope; the loader actions (ninja_builddecl): a build statement gets one node per output / input token in token order (the node of that token path evaluated in the current scope, against the working directory), the rule its name resolves to in the current scope (unknown: diagnostic + phony rule) and exactly the explicit / implicit counts the parser determined; rule variables are stored UNEVALUATED (lazy), build-statement bindings and file-level bindings are evaluated at once in the current scope and stored under their name',
+        'not_decided': ['agreement of variable evaluation with Ninja itself (needs Ninja as oracle)', 'the composition of the evalString steps over a whole string', 'that the parser accepts exactly the Ninja grammar and counts explicit / implicit inputs as Ninja does (only termination, token consumption and lexer mode are decided)', 'actOnEndBuildDecl (deps style, pool, generator / restat flags), pool and default declarations'],
     },
     'C18': {
         'units': ['ninja_valid', 'ninjadeps', 'ninja_task', 'ninja_task_step'],
